@@ -63,7 +63,7 @@ func vfC19GenReservedValue(t *rapid.T) *vfC19Val {
 const (
 	vfC19SigBlankObject  = "inject-into-whitespace-only-object-invalid-json"
 	vfC19SigRemovedNull  = "reserved-_removed-null-accepted"
-	vfC19SigBlipEscaped  = "blip-reserved-key-escaped-accepted"
+	vfC19SigBlipEscaped  = "blip-escaped-reserved-key-bypasses-raw-prefilter"
 	vfC19SigImportPurged = "import-_purged-true-answers-200"
 )
 
